@@ -122,6 +122,14 @@ func genEntity(r *core.Rand, xmlSafe bool) rtEntity {
 func compressBody(coding string, b []byte) []byte {
 	var out bytes.Buffer
 	switch coding {
+	case "gzip-multi":
+		// a legal gzip body made of several members (pigz, concatenated parts)
+		cut := len(b) / 3
+		for _, part := range [][]byte{b[:cut], b[cut : 2*cut], b[2*cut:]} {
+			w := gzip.NewWriter(&out)
+			w.Write(part)
+			w.Close()
+		}
 	case "gzip":
 		w := gzip.NewWriter(&out)
 		w.Write(b)
@@ -141,7 +149,7 @@ func refDecode(kind, coding string, body []byte) (rtEntity, error) {
 	var v rtEntity
 	var rd io.Reader = bytes.NewReader(body)
 	switch coding {
-	case "gzip":
+	case "gzip", "gzip-multi":
 		gr, err := gzip.NewReader(rd)
 		if err != nil {
 			return v, err
@@ -229,7 +237,7 @@ func breakBody(r *core.Rand, it *c16Item, plain []byte) {
 
 func c16(ctx *core.Ctx) {
 	quietLogs()
-	ctx.Rule("values of a generated struct family (int64/uint64 extremes and 2^53+1, int32, float64 incl. max/denormal/random bit patterns, bool, attribute, nested struct, non-empty slices, strings over ASCII/markup/control/unicode runes restricted to XML Char for XML) are written by the framework's own entity writer (pretty on/off), optionally gzip/deflate-compressed by the harness and posted to an echo route calling ReadEntity into the struct or (JSON, every 4th) into an untyped map where numbers must arrive as exact json.Number; Content-Type spellings with parameters and optional whitespace, or absent with a default request content type; both providers. Histories of 24 requests interleave well-formed bodies with broken ones {syntax, truncated document, empty, bad magic, declared-but-plain, garbage, truncated stream, trailer cut/flipped, syntax inside a valid stream}; run sequentially and from 16 goroutines (race detector on). Oracle: reference decode with fresh stdlib readers: error iff the reference errs (never a panic), value DeepEqual to the original / the reference value; every well-formed request round-trips whatever came before. Non-trivial = every judged request; distinct by (codec, coding, content-type spelling, broken kind, pretty, provider, mode).")
+	ctx.Rule("values of a generated struct family (int64/uint64 extremes and 2^53+1, int32, float64 incl. max/denormal/random bit patterns, bool, attribute, nested struct, non-empty slices, strings over ASCII/markup/control/unicode runes restricted to XML Char for XML) are written by the framework's own entity writer (pretty on/off), optionally gzip- (single or multi-member) / deflate-compressed by the harness and posted to an echo route calling ReadEntity into the struct or (JSON, every 4th) into an untyped map where numbers must arrive as exact json.Number; Content-Type spellings with parameters and optional whitespace, or absent with a default request content type; both providers. Histories of 24 requests interleave well-formed bodies with broken ones {syntax, truncated document, empty, bad magic, declared-but-plain, garbage, truncated stream, trailer cut/flipped, syntax inside a valid stream}; run sequentially and from 16 goroutines (race detector on). Oracle: reference decode with fresh stdlib readers: error iff the reference errs (never a panic), value DeepEqual to the original / the reference value; every well-formed request round-trips whatever came before. Non-trivial = every judged request; distinct by (codec, coding, content-type spelling, broken kind, pretty, provider, mode).")
 	ctx.Assume("an error is demanded only when the stdlib reference decode of the same bytes errs (a stream missing only its trailer decodes fine, DESIGN §4.8)")
 	defer restful.SetCompressorProvider(restful.NewSyncPoolCompessors())
 	defer restful.DefaultRequestContentType("")
@@ -283,7 +291,7 @@ func c16(ctx *core.Ctx) {
 		// build the history
 		var items []*c16Item
 		for q := 0; q < 24; q++ {
-			it := &c16Item{Kind: []string{"json", "xml"}[r.Intn(2)], Coding: []string{"", "gzip", "deflate"}[r.Intn(3)], Pretty: r.Chance(1, 2)}
+			it := &c16Item{Kind: []string{"json", "xml"}[r.Intn(2)], Coding: []string{"", "gzip", "deflate", "gzip-multi"}[r.Intn(4)], Pretty: r.Chance(1, 2)}
 			it.orig = genEntity(r, it.Kind == "xml")
 			it.HasCT, it.CT = true, r.Pick(ctSpell[it.Kind])
 			it.Untyped = it.Kind == "json" && r.Chance(1, 4)
@@ -322,7 +330,7 @@ func c16(ctx *core.Ctx) {
 			res := &c16Result{untyped: it.Untyped}
 			req := rt.Req{Method: "POST", Path: "/rt/echo", HasCT: it.HasCT, CT: it.CT, Hdr: map[string]string{}, BodyLen: len(it.body)}
 			if it.Coding != "" {
-				req.Hdr["Content-Encoding"] = it.Coding
+				req.Hdr["Content-Encoding"] = strings.TrimSuffix(it.Coding, "-multi")
 			}
 			hr := rt.HTTPRequest(&req, nil)
 			hr.Body = io.NopCloser(bytes.NewReader(it.body))
